@@ -3,6 +3,7 @@ import PercevalModel.Model.C15
 import PercevalModel.Model.C15FF
 import PercevalModel.Model.C15Text
 import PercevalModel.Model.C15PS
+import PercevalModel.Model.C15PSW
 import PercevalModel.Model.C15Tree
 import PercevalModel.Model.C15F32
 
@@ -49,6 +50,7 @@ import PercevalModel.Model.C15F32
               `text = printTop fixed obj`, `dec/ok = parseTop text` (`ok=false`: the reader rejects),
               `wf` = `Expr.WF`, `nlf` = `Expr.NotLastFree` (both `true` for `null`)
   * `psparse` {text} → {ok, dec: expr|null, print_found, print_fixed}
+  * `pswrite` {text[, one_digit]} → {ok, text|null}   (`_postselect_to_str` as written, Model/C15PSW.lean; ok=false = IndexError)
               `parseTop text` and the two writers applied to the result (`null` when rejected)
   * `pseval`  {obj: expr|null, states: [[n…]…]} → {vals: [bool…]}     `evalTop`
   A request the driver cannot parse is answered `{"err": …}`.
@@ -120,6 +122,13 @@ def handle (j : Json) : Except String Json := do
     | some x =>
       pure (Json.mkObj [("ok", true), ("dec", optExprJ x), ("print_found", str (printTop false x)),
         ("print_fixed", str (printTop true x))])
+  | "pswrite" =>
+    -- `_postselect_to_str` as written (the regex pass) on a text; `one_digit`: the variant `\d` of the last token
+    let t := txt (← strOf j "text")
+    let one := (j.getObjValAs? Bool "one_digit").toOption.getD false
+    match scan one 0 0 [] t with
+    | none => pure (Json.mkObj [("ok", false), ("text", Json.null)])
+    | some r => pure (Json.mkObj [("ok", true), ("text", str r)])
   | "pseval" =>
     let x ← optExprOf (← j.getObjVal? "obj")
     let sts ← (← arrOf j "states").toList.mapM natList
@@ -1097,7 +1106,7 @@ def handleE (j : Json) : Except String Json := do
     pure (Json.mkObj [("raised", listJ (fun (n : Nat) => (n : Json)) bad), ("state", provJ p), ("good", isGood p),
       ("enc", encJ), ("dec", optToJ provJ (FF.decProv some Prod.snd false p.m w)),
       ("dec_flag_first", optToJ provJ (FF.decProv some Prod.snd true p.m w))])
-  | "ps" | "psparse" | "pseval" => C15PSD.handle j
+  | "ps" | "psparse" | "pseval" | "pswrite" => C15PSD.handle j
   | "tree" | "treedec" => C15TreeD.handle j
   | "f32" | "f32s" | "ffc" | "ffcp_any" => C15FFVD.handle j
   | _ => throw s!"unknown op {op}"
